@@ -22,6 +22,14 @@ class UserFunctionError(Exception):
     """marker exception raised by the test oracle's user functions"""
 
 
+class UserTypeError(UserFunctionError, TypeError):
+    """a user function failing with a TypeError"""
+
+
+class UserValueError(UserFunctionError, ValueError):
+    """a user function failing with a ValueError"""
+
+
 # ------------------------------------------------------------------ to pymbolic
 
 def to_pym(e):
@@ -315,7 +323,7 @@ def test_F(name, nres):
         for k in kwargs:
             h += len(k) * _as_int(kwargs[k])
         if "raise" in name and h % 3 == 0:
-            raise UserFunctionError(name)
+            raise (UserFunctionError, UserTypeError, UserValueError)[(h // 3) % 3](name)
         if "arr" in name:
             return np.array([h + i for i in range(h % 3 + 1)], dtype=np.int64)
         if nres == 1:
